@@ -274,6 +274,17 @@ func (s *Server) blobUploadPost(repoStr string) http.HandlerFunc {
 		repo.Done()
 		if err != nil {
 			if errors.Is(err, types.ErrBlobExists) {
+				if dStr != "" {
+					// the content of a monolithic upload is not stored again, it is still verified
+					digester := d.Algorithm().Digester()
+					_, err = io.Copy(digester.Hash(), r.Body)
+					if err != nil || digester.Digest() != d {
+						w.WriteHeader(http.StatusBadRequest)
+						_ = types.ErrRespJSON(w, types.ErrInfoBlobUploadInvalid("digest mismatch"))
+						s.log.Debug("failed to verify blob digest", "repo", repoStr, "digest", d.String(), "err", err)
+						return
+					}
+				}
 				// blob exists, indicate it was created and return the location to get
 				loc, err := url.JoinPath("/v2", repoStr, "blobs", d.String())
 				if err != nil {
